@@ -28,9 +28,20 @@ func init() {
 				return units
 			}
 			// quick: every bound combination at one seed-chosen position per type, 6% elsewhere
-			positions := []string{"req", "opt", "nullopt", "nullreq", "defreq", "defopt"}
+			positions := []string{"req", "opt", "nullopt", "nullreq", "defreq", "defopt", "optdefault"}
 			pos := positions[rng.Intn(len(positions))]
 			return sample(units, rng, func(u *rt.Unit) bool { return u.Str("pos") == pos && !hasMult(u) }, 0.06)
+		}}
+}
+
+func init() {
+	families["C06"] = &rt.Family{Prop: "C06", Module: "MC_C06", PackSize: 8,
+		Rule: "units = minLength {absent,0,1,2} x maxLength {absent,0,1,2,3} x pattern {absent + 4 patterns} x 7 positions; documents = every string over a 5-character alphabet (1,1,2,3,4 UTF-8 bytes) up to length 3 (quick) / 4 (thorough), absent, null. distinct_nontrivial = distinct (unit, document) pairs with a definite reference verdict",
+		ExtraCfg: func(tier string) string {
+			if tier == "thorough" {
+				return "  MaxStr = 4\n"
+			}
+			return "  MaxStr = 3\n"
 		}}
 }
 
